@@ -449,7 +449,7 @@ func (v *Vue) callFunc(ctx *VueContext, fn any, args ...any) (any, error) {
 			// a number passed to a string parameter is printed, not reinterpreted as a code point
 			converted, _ := convertValue(argVal, argType)
 			in[i] = converted.Convert(argType)
-		} else if argVal.Type().ConvertibleTo(argType) {
+		} else if argVal.CanConvert(argType) {
 			in[i] = argVal.Convert(argType)
 		} else {
 			// Try to handle common conversions
